@@ -22,6 +22,13 @@ theorem concatMap_append {α} (f : α → String) (xs ys : List α) :
   | nil => simp
   | cons x xs ih => simp [ih, String.append_assoc]
 
+/-- a Go `for i, x := range l` writing into a `strings.Builder` -/
+def concatMapIdxFrom {α : Type} (f : Nat → α → String) : Nat → List α → String
+  | _, [] => ""
+  | k, x :: xs => f k x ++ concatMapIdxFrom f (k + 1) xs
+
+def concatMapIdx {α : Type} (f : Nat → α → String) (l : List α) : String := concatMapIdxFrom f 0 l
+
 /-- `strings.Join`. -/
 def joinSep (sep : String) : List String → String
   | [] => ""
